@@ -77,6 +77,11 @@ def _call(draw):
                 bad[p] = draw(st.sampled_from([" ", "  ", "\t", "a b", "\n"]))
             else:
                 bad[p] = draw(_bad(k))
+        if m == "delete_if_invalid_object" and draw(st.integers(0, 7)) == 0:
+            # the whole validation pair left out (None, None): for store_object that is the ordinary call, here both are required
+            bad = {"checksum": None, "checksum_algorithm": None}
+        elif len(bad) == 2 and draw(st.integers(0, 5)) == 0:
+            bad = {p: (None if GRAMMAR[m][p] in ("id", "alg") else v) for p, v in bad.items()}   # several arguments None at once
         return {"mode": mode, "m": m, "bad": bad, "content": draw(st.sampled_from(["new", "existing"])),
                 "pid": draw(st.sampled_from(PIDS + ["fresh"])),
                 # delete_if_invalid_object: which object the (valid) ObjectMetadata describes, and whether the
@@ -115,8 +120,42 @@ def _case(draw, tier):
         if draw(st.integers(0, 3)) == 0:
             hist += [{"op": "store", "pid": "gone", "c": draw(st.sampled_from([1, 1, 0]))},
                      {"op": "delete", "pid": "gone", "fault": draw(st.sampled_from(["marker-remove", "marker-remove-all"]))}]
+    # one populated case in five: p1 (and whoever shares its object) is in one of the partial reference conditions that a process
+    # death inside store_object / tag_object / delete_object leaves (C10 enumerates them); read-only calls on it may fail, or
+    # succeed if the bytes are still reachable - but a read-only or rejected call REPAIRS nothing: the store stays byte-for-byte
+    damage = draw(st.sampled_from([None] * 4 + ["cid-list-missing", "pid-not-listed", "pid-ref-missing", "object-missing"])) if pop else None
+    call_ = draw(_call())
+    if damage and call_["mode"] == "read" and draw(st.booleans()):
+        call_ = dict(call_, pid="p1", m=draw(st.sampled_from(["retrieve_object", "get_hex_digest"])))
     return {"cfg": {"algo": "SHA-256", "depth": 3, "width": 2}, "contents": [{"hex": "61626364"}, {"hex": "78"}],
-            "docs": [{"hex": "6d31"}, {"hex": "6d32"}], "ops": hist, "call": draw(_call()), "populated": pop}
+            "docs": [{"hex": "6d31"}, {"hex": "6d32"}], "ops": hist, "call": call_, "populated": pop, "damage": damage}
+
+
+def _damage(run, kind):
+    """Bring pid p1 (bound to content 0 by the first step of every populated history) into the state a crash leaves."""
+    import hashlib
+    cfg, root = run.cfg, run.root
+    cid = cfg.digest(run.contents[0])
+    pidref = os.path.join(root, cfg.pidref_rel("p1"))
+    cidref = os.path.join(root, cfg.cidref_rel(cid))
+    obj = os.path.join(root, cfg.obj_rel(cid))
+    if not (os.path.isfile(pidref) and os.path.isfile(cidref) and os.path.isfile(obj)):
+        return False
+    if kind == "cid-list-missing":        # first store: died between the two reference moves
+        os.remove(cidref)
+    elif kind == "pid-not-listed":        # additional pid of a shared object: died before the list was extended
+        with open(cidref, encoding="utf-8") as f:
+            lines = f.read().splitlines(keepends=True)
+        keep = [ln for ln in lines if ln.rstrip("\n") != "p1"]
+        if not keep:
+            keep = ["someone-else\n"]
+        with open(cidref, "w", encoding="utf-8") as f:
+            f.write("".join(keep))
+    elif kind == "pid-ref-missing":       # delete_object: died after the pid reference was taken away
+        os.remove(pidref)
+    else:                                 # tagged before the upload, or the object was lost
+        os.remove(obj)
+    return True
 
 
 def strategy(tier):
@@ -164,6 +203,9 @@ def run_case(case, ctx):
     s = run.store
     c = case["call"]
     work = run.src
+    damaged = bool(case.get("damage")) and _damage(run, case["damage"])
+    if damaged:
+        ctx.classify("partial-reference-state=" + case["damage"])
     newfile = common.write_file(os.path.join(work, "newcontent"), b"never stored before")
     good_data = run.cpaths[0] if c.get("content") == "existing" else newfile
     pid = c.get("pid", "p1")
@@ -280,6 +322,8 @@ def run_case(case, ctx):
     else:
         m, p = c["m"], c["pid"]
         must_raise = False
+        if damaged:
+            ctx.classify("read-only-call-in-a-partial-reference-state")
         if m == "retrieve_object":
             fn = lambda: _read(s.retrieve_object(p))  # noqa
         elif m == "retrieve_metadata":
